@@ -31,15 +31,14 @@ ReplyOk(toks, r, raw) ==
 
 TCmd ==
   /\ IsEv("cmd")
-  /\ Tag("C14.no-exception", Ev.exc = "")
   /\ IF ~IsCmd(Ev.raw)
-     THEN /\ Tag("C05.no-reply-without-prefix", Ev.outs = <<>>)
+     THEN /\ Tag("C05.no-reply-without-prefix", Ev.outs = <<>> /\ Ev.exc = "")
           /\ UNCHANGED fvars
           /\ Tag("C05.effect", trx = [t \in Ids |-> [P.trx[t] EXCEPT !.q = trx[t].q]])
      ELSE LET toks == Tokens(Ev.raw) IN
           /\ Tag("harness.wellformed-numbers", AllInts(Tail(toks)))
           /\ Cmd(Ev.t, VerbOf(toks[1]), Ints(Tail(toks)))
-          /\ Tag("C05.exactly-one-reply", Len(Ev.outs) = 1)
+          /\ Tag("C05.exactly-one-reply", Len(Ev.outs) = 1 /\ Ev.exc = "")
           /\ Tag("C05.reply-to-sender", Ev.outs[1].kind = "ctrl" /\ Ev.outs[1].t = Ev.t /\ Ev.outs[1].port = Ev.rport)
           /\ Tag("C05.reply-octets", ReplyOk(toks, out'.rsp[1], Ev.outs[1].raw))
           /\ Tag("C05.reply-delay", Ev.slept = IF trx'[Ev.t].delay > 0 THEN <<trx'[Ev.t].delay>> ELSE <<>>)
